@@ -1,5 +1,6 @@
 (* Proofs/AwsChunkedProofs.v — C30 *)
-From Verif Require Import Bytes Codec AwsChunked.
+From Verif Require Import Bytes Codec AwsChunked AwsChunkedSpec.
+From Coq Require Import ZifyBool ZifyN ZifyNat.
 
 Lemma unauthenticated_raw : forall a c body, a <> AuthSigned -> upload a c body = Stored body.
 Proof. intros [| |] c body H; [contradiction| |]; reflexivity. Qed.
@@ -9,4 +10,434 @@ Lemma auth_off_differs : forall a c body p,
 Proof.
   intros a c body p Ha Hd Hne. rewrite (unauthenticated_raw a c body Ha). cbn [upload]. rewrite Hd.
   intros E. inversion E. congruence.
+Qed.
+
+(* ---- hex size fields ---- *)
+Lemma parse_hex_go_fold hs acc : forallb is_hex hs = true ->
+  parse_hex_go hs acc = Some (fold_left (fun acc b => 16 * acc + match hex_val b with Some d => d | None => 0 end)%N hs acc).
+Proof.
+  revert acc; induction hs as [|b hs IH]; intros acc H; cbn in *; [reflexivity|].
+  apply andb_prop in H as [Hb Hs]. unfold is_hex in Hb. destruct (hex_val b); [|discriminate]. apply IH; exact Hs.
+Qed.
+
+Lemma parse_hex_ok hs : hexstr hs = true -> (hexv hs < 18446744073709551616)%N -> parse_hex hs = Some (hexv hs).
+Proof.
+  unfold hexstr, parse_hex. intros H Hlt. apply andb_prop in H as [Hne Hh].
+  destruct hs as [|b hs]; [discriminate|]. rewrite (parse_hex_go_fold _ _ Hh). fold (hexv (b :: hs)).
+  destruct (hexv (b :: hs) <? 18446744073709551616)%N eqn:E; [reflexivity|lia].
+Qed.
+
+Lemma hex_not (d : byte) hs : forallb is_hex hs = true -> is_hex d = false -> ~ In d hs.
+Proof. intros H Hd Hin. rewrite forallb_forall in H. rewrite (H d Hin) in Hd. discriminate. Qed.
+
+Lemma hex_not_crlf hs : forallb is_hex hs = true -> forallb (fun b => negb (is_crlf b)) hs = true.
+Proof.
+  rewrite !forallb_forall. intros H b Hb. specialize (H b Hb).
+  unfold is_crlf. destruct (beqb b x0d) eqn:E1; [apply beqb_eq in E1; subst; discriminate|].
+  destruct (beqb b x0a) eqn:E2; [apply beqb_eq in E2; subst; discriminate|]. reflexivity.
+Qed.
+
+(* ---- the header line ---- *)
+Lemma trim_l_id p l : forallb (fun b => negb (p b)) l = true -> trim_l p l = l.
+Proof. destruct l as [|x l]; cbn; [reflexivity|]. intros H. apply andb_prop in H as [Hx _]. destruct (p x); [discriminate|reflexivity]. Qed.
+
+Lemma forallb_rev' {A} (f : A -> bool) l : forallb f (rev l) = forallb f l.
+Proof. induction l as [|x l IH]; cbn; [reflexivity|]. rewrite forallb_app, IH. cbn. rewrite andb_true_r. apply andb_comm. Qed.
+
+Lemma trim_crlf_line m : forallb (fun b => negb (is_crlf b)) m = true -> trim_crlf ((m ++ [x0d]) ++ [nl]) = m.
+Proof.
+  intros H. unfold trim_crlf. rewrite <- app_assoc. cbn [app].
+  destruct m as [|x m]; [reflexivity|].
+  assert (H1 : trim_l is_crlf ((x :: m) ++ [x0d; nl]) = (x :: m) ++ [x0d; nl]).
+  { cbn in *. apply andb_prop in H as [Hx _]. destruct (is_crlf x); [discriminate|reflexivity]. }
+  rewrite H1. rewrite rev_app_distr. cbn [rev app]. change (is_crlf nl) with true. cbn [trim_l].
+  change (is_crlf x0d) with true. cbv iota.
+  change (rev m ++ [x]) with (rev (x :: m)). rewrite trim_l_id by (rewrite forallb_rev'; exact H).
+  apply rev_involutive.
+Qed.
+
+Lemma is_prefix_app p r : is_prefix p (p ++ r) = true.
+Proof. apply is_prefix_spec. exists r. reflexivity. Qed.
+
+Lemma skipn_app_exact {A} (p r : list A) : skipn (length p) (p ++ r) = r.
+Proof. induction p; cbn; auto. Qed.
+
+Lemma split_sub_hit hs sg : ~ In ";"%byte hs -> split_sub sig_ext (hs ++ sig_ext ++ sg) = Some (hs, sg).
+Proof.
+  induction hs as [|x hs IH]; intros H.
+  - cbn [app]. change (sig_ext ++ sg) with (";"%byte :: (tl sig_ext ++ sg)). cbn [split_sub].
+    change (";"%byte :: (tl sig_ext ++ sg)) with (sig_ext ++ sg). rewrite is_prefix_app, skipn_app_exact. reflexivity.
+  - cbn [app split_sub]. assert (Hx : beqb ";"%byte x = false) by (apply beqb_neq; intros E; apply H; left; symmetry; exact E).
+    change (is_prefix sig_ext (x :: hs ++ sig_ext ++ sg)) with (beqb ";"%byte x && is_prefix (tl sig_ext) (hs ++ sig_ext ++ sg)).
+    rewrite Hx. cbn [andb]. rewrite IH by (intros Hin; apply H; right; exact Hin). reflexivity.
+Qed.
+
+Lemma split_sub_miss hs : ~ In ";"%byte hs -> split_sub sig_ext hs = None.
+Proof.
+  induction hs as [|x hs IH]; intros H; [reflexivity|].
+  cbn [split_sub]. assert (Hx : beqb ";"%byte x = false) by (apply beqb_neq; intros E; apply H; left; symmetry; exact E).
+  change (is_prefix sig_ext (x :: hs)) with (beqb ";"%byte x && is_prefix (tl sig_ext) hs). rewrite Hx. cbn [andb].
+  rewrite IH by (intros Hin; apply H; right; exact Hin). reflexivity.
+Qed.
+
+(* what Read sees of a chunk header [hs ext CRLF]: the size field and the claimed signature *)
+Definition header_view (signed : bool) (hs sg cursig : bytes) : bytes * bytes * bool :=
+  if signed then (hs, sg, true) else (hs, cursig, false).
+
+Lemma header_line signed hs sg X cursig :
+  forallb is_hex hs = true -> tok_ok sg = true ->
+  split_first nl (hs ++ ext signed sg ++ CRLF ++ X) = Some ((hs ++ ext signed sg) ++ [x0d], X) /\
+  (let meta := trim_crlf (((hs ++ ext signed sg) ++ [x0d]) ++ [nl]) in
+   match split_sub sig_ext meta with
+   | Some (a, s) => (a, s, true)
+   | None => (meta, cursig, false)
+   end) = header_view signed hs sg cursig.
+Proof.
+  intros Hh Ht.
+  assert (Hm : forallb (fun b => negb (is_crlf b)) (hs ++ ext signed sg) = true).
+  { rewrite forallb_app. rewrite (hex_not_crlf _ Hh). destruct signed; cbn [ext andb]; [|reflexivity].
+    rewrite forallb_app. unfold tok_ok in Ht. rewrite Ht. reflexivity. }
+  split.
+  - apply split_first_Some. split.
+    + rewrite <- !app_assoc. reflexivity.
+    + intros Hin. apply in_app_or in Hin as [Hin|Hin].
+      * rewrite forallb_forall in Hm. specialize (Hm _ Hin). discriminate.
+      * destruct Hin as [E|[]]. discriminate.
+  - cbv zeta. rewrite trim_crlf_line by exact Hm.
+    assert (Hsemi : ~ In ";"%byte hs) by (apply hex_not; [exact Hh|reflexivity]).
+    destruct signed; cbn [ext header_view].
+    + rewrite split_sub_hit by exact Hsemi. reflexivity.
+    + rewrite app_nil_r. rewrite split_sub_miss by exact Hsemi. reflexivity.
+Qed.
+
+Definition verifies (c : cfg) (calls : nat) (sg : bytes) : Prop :=
+  skip_val c = true \/ nth_error (exp_sigs c) calls = Some sg.
+
+Lemma sig_ok_of c calls sg : nth_error (exp_sigs c) calls = Some sg -> sig_ok c calls sg = true.
+Proof. unfold sig_ok. intros ->. apply bytes_eqb_refl. Qed.
+
+Lemma sig_ok_not c calls sg : nth_error (exp_sigs c) calls <> Some sg -> sig_ok c calls sg = false.
+Proof.
+  unfold sig_ok. intros H. destruct (nth_error (exp_sigs c) calls) as [e|]; [|reflexivity].
+  apply bytes_eqb_neq. intros E. apply H. congruence.
+Qed.
+
+(* one data chunk *)
+Lemma dec_chunk f c ch X cursig calls acc :
+  wf_chunk ch -> verifies c calls (c_sig ch) ->
+  dec (S f) c (enc_chunk (negb (skip_val c)) ch ++ X) cursig calls acc =
+  dec f c X (if skip_val c then cursig else c_sig ch) (S calls) (acc ++ c_data ch).
+Proof.
+  intros [Hhs [Hlen [[Hpos Hlt] Htok]]] Hv. unfold enc_chunk. rewrite <- !app_assoc.
+  pose proof Hhs as Hhs'. unfold hexstr in Hhs'. apply andb_prop in Hhs' as [_ Hh].
+  destruct (header_line (negb (skip_val c)) (c_hs ch) (c_sig ch) (c_data ch ++ CRLF ++ X) cursig Hh Htok) as [H1 H2].
+  cbn [dec]. rewrite H1. cbv zeta in H2. cbv zeta. rewrite H2. unfold header_view.
+  set (rest := c_data ch ++ CRLF ++ X).
+  assert (Hhave : (lenN rest = lenN (c_data ch) + 2 + lenN X)%N).
+  { unfold rest, lenN. rewrite !app_length. cbn [length CRLF]. lia. }
+  assert (Hfirst : firstn (N.to_nat (hexv (c_hs ch))) rest = c_data ch).
+  { unfold rest. rewrite Hlen. unfold lenN. rewrite Nat2N.id. rewrite firstn_app, Nat.sub_diag, firstn_all. cbn. apply app_nil_r. }
+  assert (Hskip : skipn (N.to_nat (hexv (c_hs ch))) rest = CRLF ++ X).
+  { unfold rest. rewrite Hlen. unfold lenN. rewrite Nat2N.id. apply skipn_app_exact. }
+  destruct (skip_val c) eqn:Esk; cbn [negb andb].
+  - rewrite parse_hex_ok by assumption.
+    replace (hexv (c_hs ch) =? 0)%N with false by lia.
+    replace (lenN rest =? 0)%N with false by lia. replace (lenN rest <? hexv (c_hs ch))%N with false by lia.
+    rewrite Hfirst, Hskip. cbn [CRLF app skipn]. replace (lenN (x0d :: x0a :: X) <? 2)%N with false by (unfold lenN; cbn [length]; lia).
+    reflexivity.
+  - rewrite parse_hex_ok by assumption.
+    replace (hexv (c_hs ch) =? 0)%N with false by lia.
+    replace (lenN rest =? 0)%N with false by lia. replace (lenN rest <? hexv (c_hs ch))%N with false by lia.
+    rewrite Hfirst, Hskip. cbn [CRLF app skipn]. replace (lenN (x0d :: x0a :: X) <? 2)%N with false by (unfold lenN; cbn [length]; lia).
+    destruct Hv as [Hv|Hv]; [congruence|]. rewrite (sig_ok_of _ _ _ Hv). reflexivity.
+Qed.
+
+(* the trailer section as the reader sees it *)
+Definition trailer_accepts (c : cfg) (tr : bytes) : bool :=
+  if has_trailer c then
+    let '(ck, tsig) := trailer_lines 8 true tr [] [] in
+    if trailer_signed c && negb (bytes_eqb tsig (exp_tsig c)) then false else ck_check c ck
+  else true.
+
+(* the terminating chunk *)
+Lemma dec_final f c hs0 sgf tr cursig calls acc :
+  hexstr hs0 = true -> hexv hs0 = 0%N -> tok_ok sgf = true ->
+  dec (S f) c (hs0 ++ ext (negb (skip_val c)) sgf ++ CRLF ++ tr) cursig calls acc =
+  if negb (skip_val c) && negb (sig_ok c calls sgf) then Reject
+  else if trailer_accepts c tr then Stored acc else Reject.
+Proof.
+  intros Hhs Hz Htok. pose proof Hhs as Hhs'. unfold hexstr in Hhs'. apply andb_prop in Hhs' as [_ Hh].
+  destruct (header_line (negb (skip_val c)) hs0 sgf tr cursig Hh Htok) as [H1 H2].
+  cbn [dec]. rewrite H1. cbv zeta in H2. cbv zeta. rewrite H2. unfold header_view, trailer_accepts.
+  destruct (skip_val c) eqn:Esk; cbn [negb andb]; rewrite parse_hex_ok by (try assumption; lia); rewrite Hz;
+    change (0 =? 0)%N with true; cbv iota.
+  - destruct (has_trailer c); [|reflexivity].
+    destruct (trailer_lines 8 true tr [] []) as [ck ts].
+    destruct (trailer_signed c && negb (bytes_eqb ts (exp_tsig c))); [reflexivity|]. destruct (ck_check c ck); reflexivity.
+  - destruct (sig_ok c calls sgf); cbn [negb]; [|reflexivity].
+    destruct (has_trailer c); [|reflexivity].
+    destruct (trailer_lines 8 true tr [] []) as [ck ts].
+    destruct (trailer_signed c && negb (bytes_eqb ts (exp_tsig c))); [reflexivity|]. destruct (ck_check c ck); reflexivity.
+Qed.
+
+(* consistency of the expected tokens with the signatures carried by the chunks, from call [calls] on *)
+Definition sigs_from (c : cfg) (calls : nat) (sgs : list bytes) : Prop :=
+  skip_val c = true \/ forall i sg, nth_error sgs i = Some sg -> nth_error (exp_sigs c) (calls + i) = Some sg.
+
+Lemma sigs_from_head c calls sg sgs : sigs_from c calls (sg :: sgs) -> verifies c calls sg /\ sigs_from c (S calls) sgs.
+Proof.
+  intros [H|H]; [split; left; exact H|]. split.
+  - right. specialize (H 0 sg eq_refl). rewrite Nat.add_0_r in H. exact H.
+  - right. intros i s Hi. specialize (H (S i) s Hi). rewrite Nat.add_succ_r in H. exact H.
+Qed.
+
+Definition last_sig (c : cfg) (cursig : bytes) (chs : list chunk) : bytes :=
+  if skip_val c then cursig else match rev chs with [] => cursig | ch :: _ => c_sig ch end.
+
+(* an honest prefix of chunks is consumed chunk by chunk *)
+Lemma dec_prefix : forall chs f c Z cursig calls acc,
+  Forall wf_chunk chs -> sigs_from c calls (map c_sig chs) ->
+  dec (length chs + f) c (enc_chunks (negb (skip_val c)) chs ++ Z) cursig calls acc =
+  dec f c Z (last_sig c cursig chs) (calls + length chs) (acc ++ payload_of chs).
+Proof.
+  induction chs as [|ch chs IH]; intros f c Z cursig calls acc Hwf Hs.
+  - cbn. rewrite Nat.add_0_r, app_nil_r. unfold last_sig. cbn. destruct (skip_val c); reflexivity.
+  - inversion Hwf as [|? ? Hch Hrest]; subst. cbn [map] in Hs. apply sigs_from_head in Hs as [Hv Hs'].
+    unfold enc_chunks. cbn [map concat length]. rewrite <- app_assoc. cbn [plus].
+    rewrite (dec_chunk (length chs + f) c ch _ cursig calls acc Hch Hv).
+    fold (enc_chunks (negb (skip_val c)) chs). rewrite (IH f c Z _ (S calls) (acc ++ c_data ch) Hrest Hs').
+    unfold payload_of. cbn [map concat]. rewrite <- app_assoc.
+    replace (S calls + length chs) with (calls + S (length chs)) by lia.
+    f_equal. unfold last_sig. destruct (skip_val c); [reflexivity|]. cbn [rev].
+    destruct (rev chs) as [|x xs] eqn:E; cbn [app]; reflexivity.
+Qed.
+
+Lemma enc_chunks_length signed chs : length chs <= length (enc_chunks signed chs).
+Proof.
+  induction chs as [|ch chs IH]; [cbn; lia|]. unfold enc_chunks in *. cbn [map concat length]. rewrite app_length.
+  assert (1 <= length (enc_chunk signed ch)) by (unfold enc_chunk; rewrite !app_length; cbn [length CRLF]; lia). lia.
+Qed.
+
+Lemma decode_fuel c chs Z : exists f, S (length (enc_chunks (negb (skip_val c)) chs ++ Z)) = length chs + S f.
+Proof.
+  pose proof (enc_chunks_length (negb (skip_val c)) chs). rewrite app_length.
+  exists (length (enc_chunks (negb (skip_val c)) chs) - length chs + length Z). lia.
+Qed.
+
+Lemma decode_encode_stmt : forall c chs hs0 sgf tr,
+  Forall wf_chunk chs -> hexstr hs0 = true -> hexv hs0 = 0%N -> tok_ok sgf = true ->
+  sigs_from c 0 (map c_sig chs ++ [sgf]) -> trailer_accepts c tr = true ->
+  decode c (enc (negb (skip_val c)) chs hs0 sgf tr) = Stored (payload_of chs).
+Proof.
+  intros c chs hs0 sgf tr Hwf Hhs Hz Htok Hs Htr. unfold decode, enc.
+  destruct (decode_fuel c chs (hs0 ++ ext (negb (skip_val c)) sgf ++ CRLF ++ tr)) as [f Hf]. rewrite Hf.
+  assert (Hs1 : sigs_from c 0 (map c_sig chs)).
+  { destruct Hs as [H|H]; [left; exact H|right]. intros i sg Hi. apply H. rewrite nth_error_app1; [exact Hi|].
+    apply nth_error_Some. congruence. }
+  rewrite (dec_prefix chs (S f) c _ [] 0 [] Hwf Hs1). cbn [app plus].
+  rewrite dec_final by assumption. rewrite Htr.
+  destruct (skip_val c) eqn:Esk; cbn [negb andb]; [reflexivity|].
+  destruct Hs as [H|H]; [congruence|].
+  specialize (H (length chs) sgf). rewrite nth_error_app2 in H by (rewrite map_length; lia).
+  rewrite map_length, Nat.sub_diag in H. specialize (H eq_refl). cbn [plus] in H.
+  rewrite (sig_ok_of _ _ _ H). reflexivity.
+Qed.
+
+(* ---- tampering ---- *)
+(* a chunk (any size field, any data that is completely present) whose signature token does not verify *)
+Lemma dec_bad_chunk f c hs sg Y cursig calls acc :
+  skip_val c = false -> hexstr hs = true -> (0 < hexv hs < 18446744073709551616)%N -> tok_ok sg = true ->
+  nth_error (exp_sigs c) calls <> Some sg -> (hexv hs + 2 <= lenN Y)%N ->
+  dec (S f) c (hs ++ sig_ext ++ sg ++ CRLF ++ Y) cursig calls acc = Reject.
+Proof.
+  intros Esk Hhs [Hpos Hlt] Htok Hbad Hlen. pose proof Hhs as Hhs'. unfold hexstr in Hhs'. apply andb_prop in Hhs' as [_ Hh].
+  destruct (header_line true hs sg Y cursig Hh Htok) as [H1 H2].
+  replace (hs ++ sig_ext ++ sg ++ CRLF ++ Y) with (hs ++ ext true sg ++ CRLF ++ Y) by (cbn [ext]; rewrite <- app_assoc; reflexivity).
+  cbn [dec]. rewrite H1. cbv zeta in H2. cbv zeta. rewrite H2. unfold header_view.
+  rewrite Esk. cbn [negb andb]. rewrite parse_hex_ok by assumption.
+  replace (hexv hs =? 0)%N with false by lia. replace (lenN Y =? 0)%N with false by lia.
+  replace (lenN Y <? hexv hs)%N with false by lia.
+  assert (Hl : (lenN (skipn (N.to_nat (hexv hs)) Y) <? 2)%N = false).
+  { unfold lenN in *. rewrite skipn_length. lia. }
+  rewrite Hl. rewrite (sig_ok_not _ _ _ Hbad). reflexivity.
+Qed.
+
+Lemma tamper_chunk_stmt : forall c chs hs sg Y,
+  skip_val c = false -> Forall wf_chunk chs -> sigs_from c 0 (map c_sig chs) ->
+  hexstr hs = true -> (0 < hexv hs < 18446744073709551616)%N -> tok_ok sg = true ->
+  nth_error (exp_sigs c) (length chs) <> Some sg -> (hexv hs + 2 <= lenN Y)%N ->
+  decode c (enc_chunks true chs ++ hs ++ sig_ext ++ sg ++ CRLF ++ Y) = Reject.
+Proof.
+  intros c chs hs sg Y Esk Hwf Hs Hhs Hv Htok Hbad Hlen. unfold decode.
+  replace true with (negb (skip_val c)) by (rewrite Esk; reflexivity).
+  destruct (decode_fuel c chs (hs ++ sig_ext ++ sg ++ CRLF ++ Y)) as [f Hf]. rewrite Hf.
+  rewrite (dec_prefix chs (S f) c _ [] 0 [] Hwf Hs). cbn [plus].
+  apply dec_bad_chunk; assumption.
+Qed.
+
+Lemma tamper_final_stmt : forall c chs hs0 sgf tr,
+  Forall wf_chunk chs -> sigs_from c 0 (map c_sig chs) ->
+  hexstr hs0 = true -> hexv hs0 = 0%N -> tok_ok sgf = true ->
+  (skip_val c = false /\ nth_error (exp_sigs c) (length chs) <> Some sgf) \/ trailer_accepts c tr = false ->
+  decode c (enc (negb (skip_val c)) chs hs0 sgf tr) = Reject.
+Proof.
+  intros c chs hs0 sgf tr Hwf Hs Hhs Hz Htok Hbad. unfold decode, enc.
+  destruct (decode_fuel c chs (hs0 ++ ext (negb (skip_val c)) sgf ++ CRLF ++ tr)) as [f Hf]. rewrite Hf.
+  rewrite (dec_prefix chs (S f) c _ [] 0 [] Hwf Hs). cbn [app plus].
+  rewrite dec_final by assumption.
+  destruct Hbad as [[Esk Hb]|Htr].
+  - rewrite Esk. cbn [negb andb]. rewrite (sig_ok_not _ _ _ Hb). reflexivity.
+  - rewrite Htr. destruct (negb (skip_val c) && negb (sig_ok c (length chs) sgf)); reflexivity.
+Qed.
+
+(* ---- the canonical trailer section is accepted / a wrong value is refused ---- *)
+Definition plain (t : bytes) : bool := forallb (fun b => negb (is_space b)) t.   (* no white space, CR or LF *)
+
+Lemma trim_left_plain m r : plain m = true -> m <> [] -> trim_left (m ++ r) = m ++ r.
+Proof. destruct m as [|x m]; [contradiction|]. cbn. intros H _. apply andb_prop in H as [Hx _]. destruct (is_space x); [discriminate|reflexivity]. Qed.
+
+Lemma trim_left_plain_all m : plain m = true -> trim_left m = m.
+Proof. destruct m as [|x m]; [reflexivity|]. cbn. intros H. apply andb_prop in H as [Hx _]. destruct (is_space x); [discriminate|reflexivity]. Qed.
+
+Lemma trim_space_cr m : plain m = true -> trim_space (m ++ [x0d]) = m.
+Proof.
+  intros H. unfold trim_space, trim_right. destruct m as [|x m].
+  - reflexivity.
+  - rewrite trim_left_plain by (try exact H; discriminate). rewrite rev_app_distr. cbn [rev app].
+    change (trim_left (x0d :: rev m ++ [x])) with (trim_left (rev m ++ [x])).
+    change (rev m ++ [x]) with (rev (x :: m)). rewrite trim_left_plain_all by (unfold plain; rewrite forallb_rev'; exact H).
+    apply rev_involutive.
+Qed.
+
+Lemma trim_space_plain t : plain t = true -> trim_space t = t.
+Proof.
+  intros Hpt. unfold trim_space, trim_right. rewrite (trim_left_plain_all t Hpt).
+  rewrite (trim_left_plain_all (rev t)) by (unfold plain; rewrite forallb_rev'; exact Hpt). apply rev_involutive.
+Qed.
+
+Lemma plain_no_nl m : plain m = true -> ~ In nl m.
+Proof. unfold plain. rewrite forallb_forall. intros H Hin. specialize (H _ Hin). discriminate. Qed.
+
+Lemma line_split m rest : plain m = true -> split_first nl (m ++ CRLF ++ rest) = Some (m ++ [x0d], rest).
+Proof.
+  intros H. apply split_first_Some. split; [rewrite <- app_assoc; reflexivity|].
+  intros Hin. apply in_app_or in Hin as [Hin|[E|[]]]; [exact (plain_no_nl _ H Hin)|discriminate].
+Qed.
+
+Definition canonical_trailer (signed : bool) (name value ts : bytes) : bytes :=
+  name ++ B":" ++ value ++ CRLF ++ (if signed then tsig_prefix ++ ts ++ CRLF else []) ++ CRLF.
+
+Lemma canonical_trailer_lines signed name value ts :
+  plain (name ++ B":" ++ value) = true -> name <> [] -> is_prefix tsig_prefix (name ++ B":" ++ value) = false ->
+  plain ts = true ->
+  trailer_lines 8 true (canonical_trailer signed name value ts) [] [] =
+  (name ++ B":" ++ value, if signed then ts else []).
+Proof.
+  intros Hp Hne Hnp Hts. unfold canonical_trailer.
+  set (line := name ++ B":" ++ value) in *.
+  replace (name ++ B":" ++ value ++ CRLF ++ (if signed then tsig_prefix ++ ts ++ CRLF else []) ++ CRLF)
+    with (line ++ CRLF ++ (if signed then tsig_prefix ++ ts ++ CRLF else []) ++ CRLF)
+    by (unfold line; rewrite <- !app_assoc; reflexivity).
+  assert (Hline : line <> []) by (unfold line; destruct name; [contradiction|discriminate]).
+  cbn [trailer_lines]. rewrite line_split by exact Hp. rewrite trim_space_cr by exact Hp.
+  destruct line as [|l0 lr] eqn:El; [contradiction|]. rewrite <- El in *. cbn [is_empty].
+  replace (is_empty line) with false by (rewrite El; reflexivity). rewrite Hnp. cbn [is_empty].
+  destruct signed.
+  - assert (Hp2 : plain (tsig_prefix ++ ts) = true) by (unfold plain in *; rewrite forallb_app, Hts; reflexivity).
+    replace ((tsig_prefix ++ ts ++ CRLF) ++ CRLF) with ((tsig_prefix ++ ts) ++ CRLF ++ CRLF) by (rewrite <- !app_assoc; reflexivity).
+    rewrite line_split by exact Hp2. rewrite trim_space_cr by exact Hp2.
+    change (is_empty (tsig_prefix ++ ts)) with false. rewrite is_prefix_app. rewrite skipn_app_exact.
+    rewrite (trim_space_plain ts Hts). reflexivity.
+  - cbn [app]. reflexivity.
+Qed.
+
+Lemma canonical_trailer_accepts c name value ts :
+  has_trailer c = true -> mem_bytes (tname c) known_algos = true ->
+  plain name = true -> name <> [] -> ~ In ":"%byte name -> to_lower name = tname c ->
+  plain value = true -> plain ts = true ->
+  trailer_accepts c (canonical_trailer (trailer_signed c) name value ts) =
+  (if trailer_signed c then bytes_eqb ts (exp_tsig c) else true) && bytes_eqb value (exp_ck c).
+Proof.
+  intros Ht Hk Hn Hne Hcolon Hlow Hv Hts. unfold trailer_accepts. rewrite Ht.
+  assert (Hp : plain (name ++ B":" ++ value) = true).
+  { unfold plain in *. rewrite !forallb_app, Hn, Hv. reflexivity. }
+  assert (Hnp : is_prefix tsig_prefix (name ++ B":" ++ value) = false).
+  { destruct (is_prefix tsig_prefix (name ++ B":" ++ value)) eqn:E; [|reflexivity].
+    apply is_prefix_spec in E as [r Hr].
+    (* the first ':' of the line is the one after [name]; in tsig_prefix it is the last byte; so to_lower name = "x-amz-trailer-signature", which is not a known checksum name *)
+    assert (Hs1 : split_first ":"%byte (name ++ B":" ++ value) = Some (name, value)) by (apply split_first_Some; split; [reflexivity|exact Hcolon]).
+    rewrite Hr in Hs1. change (tsig_prefix ++ r) with (B"x-amz-trailer-signature" ++ ":"%byte :: r) in Hs1.
+    assert (Hs2 : split_first ":"%byte (B"x-amz-trailer-signature" ++ ":"%byte :: r) = Some (B"x-amz-trailer-signature", r)).
+    { apply split_first_Some. split; [reflexivity|]. cbn. intuition discriminate. }
+    rewrite Hs2 in Hs1. inversion Hs1; subst name. rewrite <- Hlow in Hk. vm_compute in Hk. discriminate. }
+  rewrite canonical_trailer_lines by assumption.
+  unfold ck_check. rewrite Hk.
+  assert (Hs : split_first ":"%byte (name ++ B":" ++ value) = Some (name, value)) by (apply split_first_Some; split; [reflexivity|exact Hcolon]).
+  rewrite Hs.
+  rewrite (trim_space_plain name Hn), (trim_space_plain value Hv), Hlow, bytes_eqb_refl. cbn [andb].
+  destruct (trailer_signed c); cbn [andb negb].
+  - destruct (bytes_eqb ts (exp_tsig c)); reflexivity.
+  - reflexivity.
+Qed.
+
+(* ---- statements used by Properties/C30.v, with every premise syntactic ---- *)
+Definition sigs_consistent (c : cfg) (sgs : list bytes) : Prop :=
+  skip_val c = true \/ forall i sg, nth_error sgs i = Some sg -> nth_error (exp_sigs c) i = Some sg.
+
+Lemma sigs_consistent_from c sgs : sigs_consistent c sgs -> sigs_from c 0 sgs.
+Proof. intros [H|H]; [left; exact H|right; exact H]. Qed.
+
+Definition trailer_form (c : cfg) (tr name value ts : bytes) : Prop :=
+  tr = canonical_trailer (trailer_signed c) name value ts /\
+  mem_bytes (tname c) known_algos = true /\ plain name = true /\ name <> [] /\ ~ In ":"%byte name /\
+  to_lower name = tname c /\ plain value = true /\ plain ts = true.
+
+Lemma decode_encode_canonical : forall c chs hs0 sgf tr name value ts,
+  Forall wf_chunk chs -> hexstr hs0 = true -> hexv hs0 = 0%N -> tok_ok sgf = true ->
+  sigs_consistent c (map c_sig chs ++ [sgf]) ->
+  (has_trailer c = false \/
+   (trailer_form c tr name value ts /\ value = exp_ck c /\ (trailer_signed c = true -> ts = exp_tsig c))) ->
+  decode c (enc (negb (skip_val c)) chs hs0 sgf tr) = Stored (payload_of chs).
+Proof.
+  intros c chs hs0 sgf tr name value ts Hwf Hhs Hz Htok Hs Htr.
+  apply decode_encode_stmt; [assumption|assumption|assumption|assumption|apply sigs_consistent_from; exact Hs|].
+  destruct Htr as [Hnt|[[-> [Hk [Hn [Hne [Hc [Hl [Hv Hts]]]]]]] [Hval Hsig]]].
+  - unfold trailer_accepts. rewrite Hnt. reflexivity.
+  - destruct (has_trailer c) eqn:Eht; [|unfold trailer_accepts; rewrite Eht; reflexivity].
+    rewrite canonical_trailer_accepts by assumption. subst value. rewrite bytes_eqb_refl.
+    destruct (trailer_signed c); [rewrite (Hsig eq_refl), bytes_eqb_refl|]; reflexivity.
+Qed.
+
+Lemma tamper_trailer_canonical : forall c chs hs0 sgf name value ts,
+  has_trailer c = true ->
+  Forall wf_chunk chs -> hexstr hs0 = true -> hexv hs0 = 0%N -> tok_ok sgf = true ->
+  sigs_consistent c (map c_sig chs) ->
+  trailer_form c (canonical_trailer (trailer_signed c) name value ts) name value ts ->
+  value <> exp_ck c \/ (trailer_signed c = true /\ ts <> exp_tsig c) ->
+  decode c (enc (negb (skip_val c)) chs hs0 sgf (canonical_trailer (trailer_signed c) name value ts)) = Reject.
+Proof.
+  intros c chs hs0 sgf name value ts Hht Hwf Hhs Hz Htok Hs [_ [Hk [Hn [Hne [Hc [Hl [Hv Hts]]]]]]] Hbad.
+  apply tamper_final_stmt; try assumption. right.
+  rewrite canonical_trailer_accepts by assumption.
+  destruct Hbad as [Hb|[Hsg Hb]].
+  - apply bytes_eqb_neq in Hb. rewrite Hb. apply andb_false_r.
+  - rewrite Hsg. apply bytes_eqb_neq in Hb. rewrite Hb. reflexivity.
+Qed.
+
+Lemma tamper_chunk_canonical : forall c chs hs sg Y,
+  skip_val c = false -> Forall wf_chunk chs -> sigs_consistent c (map c_sig chs) ->
+  hexstr hs = true -> (0 < hexv hs < 18446744073709551616)%N -> tok_ok sg = true ->
+  nth_error (exp_sigs c) (length chs) <> Some sg -> (hexv hs + 2 <= lenN Y)%N ->
+  decode c (enc_chunks true chs ++ hs ++ sig_ext ++ sg ++ CRLF ++ Y) = Reject.
+Proof. intros. apply tamper_chunk_stmt; assumption. Qed.
+
+Lemma tamper_final_sig_canonical : forall c chs hs0 sgf tr,
+  skip_val c = false -> Forall wf_chunk chs -> sigs_consistent c (map c_sig chs) ->
+  hexstr hs0 = true -> hexv hs0 = 0%N -> tok_ok sgf = true ->
+  nth_error (exp_sigs c) (length chs) <> Some sgf ->
+  decode c (enc true chs hs0 sgf tr) = Reject.
+Proof.
+  intros c chs hs0 sgf tr Esk Hwf Hs Hhs Hz Htok Hbad.
+  replace true with (negb (skip_val c)) by (rewrite Esk; reflexivity).
+  apply tamper_final_stmt; try assumption. left. split; assumption.
 Qed.
